@@ -204,6 +204,7 @@ class Walker:
                         self.timer[h]["armed"] = False
             elif res in (2, 3):
                 self.excused.add(h)
+                self.reg_failed = True
         elif op == 4:
             if h in self.dead and res != 1:
                 self.fail("C06", "token-alive", "enable() with the token of removed source %d returned %d instead of InvalidToken" % (h, res))
@@ -251,6 +252,7 @@ class Walker:
     # ---------------------------------------------------------------- main walk
     def walk(self):
         self.failed_insert = set()
+        self.reg_failed = False
         self.double_enabled = set()
         self.idle_born_in_idle_phase = set()
         self.disp_no = 0
@@ -308,6 +310,7 @@ class Walker:
                 continue
             if tag == "16":
                 if ws[3] != "0":
+                    self.reg_failed = True
                     self.excused.add(int(ws[1]))   # a failed (re/un)registration leaves the source in an unknown state
                 continue
             if tag == "3":    # before_sleep
@@ -427,6 +430,9 @@ class Walker:
                 continue
             if tag == "14":
                 self.check_wheel(ws[1:])
+                continue
+            if tag == "9":
+                self.check_epoll([int(x) for x in ws[1:]])
                 continue
         return self.fails
 
@@ -629,6 +635,48 @@ class Walker:
             if any(t.get("dup_entries") or t.get("rearmed_in_batch") for t in self.timer.values()):
                 kind = "residue-after-rearm-in-batch"
             self.fail("C05", kind, "the timer wheel holds %d entries but only %d timers can be armed" % (len(entries), len(armed)))
+
+    def check_epoll(self, codes):
+        """the kernel's interest list (from /proc) against the sources that must / must not be registered"""
+        present = {}
+        for c in codes:
+            key = c & ((1 << 64) - 1)
+            rest = c >> 64
+            present[rest >> 4] = ((rest >> 2) & 3, rest & 3, key)
+        owners = {unpack(self.key[h])[0:2] for h in self.live if h in self.key}
+        for fd, (_, _, key) in present.items():
+            if unpack(key)[0:2] not in owners:
+                if self.failed_insert or self.reg_failed:
+                    self.fail("C15", "leaked-registration", "fd %d is registered with the OS poller under key %s which belongs to no inserted source "
+                              "(left behind by a registration that failed half-way)" % (fd, unpack(key)))
+                else:
+                    self.fail("C16", "ghost-entry", "fd %d is registered with the OS poller under key %s which belongs to no inserted source" % (fd, unpack(key)))
+                break
+        if self.failed_insert or self.reg_failed:
+            return   # C16 is stated "absent registration failures"
+        for h, sp in self.spec.items():
+            if sp[2] != "comp" or h in self.excused or h in self.failed_insert:
+                continue
+            subs = sp[5:]
+            fds = [int(subs[j]) for j in range(0, len(subs), 3)]
+            if any(len(self.fd_users.get(fd, ())) > 1 for fd in fds) or len(set(fds)) != len(fds):
+                continue
+            gone = h in self.dead or h in self.disabled
+            if h not in self.live and h not in self.dead:
+                continue
+            for j, fd in enumerate(fds):
+                if gone and fd in present:
+                    self.fail("C16", "stale-fd", "fd %d of %s source %d is still registered with the OS poller"
+                              % (fd, "removed" if h in self.dead else "disabled", h))
+                if not gone and h in self.key:
+                    if fd not in present:
+                        self.fail("C16", "missing-fd", "fd %d of inserted and enabled source %d is not registered with the OS poller" % (fd, h))
+                    else:
+                        kid, kver, ksub = unpack(present[fd][2])
+                        hid, hver, _ = unpack(self.key[h])
+                        if (kid, kver) != (hid, hver) or ksub != j + 1:
+                            self.fail("C16", "wrong-key", "fd %d of source %d is registered under key (%d,%d,%d), expected (%d,%d,%d)"
+                                      % (fd, h, kid, kver, ksub, hid, hver, j + 1))
 
     def on_panic(self, kind, cmd_i):
         # which documented exclusion (if any) explains it?
